@@ -3406,6 +3406,19 @@ sexp sexp_list_to_uvector_op(sexp ctx, sexp self, sexp_sint_t n, sexp etype, sex
 
 sexp sexp_read_one (sexp ctx, sexp in, sexp *shares);
 
+/* a bignum (or the bignum numerator of a ratio) negated in place may now fit in a fixnum */
+#if SEXP_USE_BIGNUMS
+static sexp sexp_normalize_negated (sexp x) {
+#if SEXP_USE_RATIOS
+  if (sexp_ratiop(x))
+    sexp_ratio_numerator(x) = sexp_bignum_normalize(sexp_ratio_numerator(x));
+#endif
+  return sexp_bignum_normalize(x);
+}
+#else
+#define sexp_normalize_negated(x) (x)
+#endif
+
 sexp sexp_read_raw (sexp ctx, sexp in, sexp *shares) {
   char *str;
   int c1, c2, line;
@@ -3882,14 +3895,17 @@ sexp sexp_read_raw (sexp ctx, sexp in, sexp *shares) {
 #if SEXP_USE_RATIOS
           if (sexp_ratiop(res)) {
             sexp_negate(sexp_ratio_numerator(res));
+            res = sexp_normalize_negated(res);
           } else
 #endif
 #if SEXP_USE_COMPLEX
           if (sexp_complexp(res)) {
             if (sexp_complex_real(res) == SEXP_ZERO) {
               sexp_negate_maybe_ratio(sexp_complex_imag(res));
+              sexp_complex_imag(res) = sexp_normalize_negated(sexp_complex_imag(res));
             } else {
               sexp_negate_maybe_ratio(sexp_complex_real(res));
+              sexp_complex_real(res) = sexp_normalize_negated(sexp_complex_real(res));
             }
           } else
 #endif
